@@ -357,6 +357,12 @@ class Interp:
     def eval_List(self, e, env):
         return list(self.eval_Tuple(e, env))
 
+    def eval_Set(self, e, env):
+        try:
+            return set(self.eval_Tuple(e, env))
+        except TypeError:
+            self.unknown("set display of values that are not hashable here", e)
+
     def eval_Dict(self, e, env):
         out = {}
         for k, v in zip(e.keys, e.values):
@@ -415,7 +421,7 @@ class Interp:
         return result
 
     def compare(self, op, l, r, node):
-        conc = (int, float, str, bool, tuple, list, type(None))
+        conc = (int, float, str, bool, tuple, list, type(None), set, frozenset)
         if isinstance(op, (ast.Is, ast.IsNot)):
             same = (l is r) or (l is None and r is None)
             if (l is None) != (r is None):
@@ -579,7 +585,7 @@ class Interp:
                 return base.shape
         if isinstance(base, ModRef):
             return ModRef(base.name + "." + attr)
-        if isinstance(base, (list, dict, str, tuple)):
+        if isinstance(base, (list, dict, str, tuple, set, frozenset)):
             return ("py-method", base, attr)
         hook = self.hooks.get("getattr")
         if hook is not None:
@@ -812,6 +818,11 @@ class Interp:
                 return getattr(base, attr)(*args, **kwargs)
             except Exception:
                 return "<str>"
+        if isinstance(base, (set, frozenset)) and attr in ("union", "intersection", "difference", "issubset", "issuperset", "isdisjoint") and not kwargs:
+            try:
+                return getattr(base, attr)(*[set(self.iterate(a, e)) if not isinstance(a, (set, frozenset)) else a for a in args])
+            except TypeError:
+                self.unknown(f"set method .{attr}() on values that are not hashable here", e)
         self.unknown(f"method .{attr}() of {type(base).__name__}", e)
 
     # ------------------------------------------------------------------ numpy
